@@ -54,7 +54,11 @@ def _wave(W, cfg, opd=True):
     du = (lam * f * os / (Nr * dx[0]), lam * f * os / (Nc * dx[1]))
     kw = {'opd': W.reals('o', (nr, nc))} if opd else {}
     mask = rnp.ones((nr, nc), dtype=int)
-    if cfg.get('seg'):
+    if cfg.get('seg') == 'diag':
+        # two interleaved segments whose bounding boxes coincide
+        rr, cc = rnp.mgrid[0:nr, 0:nc]
+        mask = rnp.stack([((rr + cc) % 2 == 0).astype(int), ((rr + cc) % 2 == 1).astype(int)])
+    elif cfg.get('seg'):
         mask = rnp.zeros((2, nr, nc), dtype=int)
         mask[0, :, :nc // 2] = 1
         mask[1, :, nc // 2:] = 1
@@ -102,6 +106,8 @@ def cfg_scratch(tier, seed):
     for Nr, Nc in grids:
         for extra in ('exact', 'larger', 'much-larger', 'smaller-r', 'smaller-c'):
             out.append({'N': [Nr, Nc], 'n': [min(2, Nr), min(2, Nc)], 'os': 1, 'extra': extra})
+            if extra in ('exact', 'larger') and min(Nr, Nc) >= 2:
+                out.append({'N': [Nr, Nc], 'n': [2, 2], 'os': 1, 'extra': extra, 'seg': 'diag'})
     return out, len(out), True
 
 
